@@ -6,6 +6,7 @@ import itertools
 from .. import lib
 from ..engine import bases, par, report, sandbox
 from ..ref import iban as ri
+from ..ref import bic as rb
 from ..ref import lookup, reg
 
 PID = "C12"
@@ -37,6 +38,18 @@ def check_key(index: dict, country: str, code: str):
     probs = []
     ref = lookup.candidates_in(index, country, code)
     k, got = lib_candidates(country, code)
+    malformed = [b for b in (ref or []) if not rb.accept(b)]
+    if malformed:
+        # the registry lists a text that is no BIC: no lookup may hand it out as a BIC object (a
+        # library error is fine; C17 owns the bundled data, this is about what the classes return)
+        k2, chosen = lib_chosen(country, code)
+        if k == "ok" and any(b in malformed for b in got):
+            probs.append(("malformed-registry-BIC-handed-out-as-a-BIC-object", "library error or omitted", (k, got)))
+        if k2 == "ok" and chosen in malformed:
+            probs.append(("malformed-registry-BIC-chosen-as-a-BIC-object", "library error or omitted", (k2, chosen)))
+        if k == "foreign" or k2 == "foreign":
+            probs.append(("foreign-exception-for-a-malformed-registry-BIC", "library error", ((k, got), (k2, chosen))))
+        return probs
     if ref is None:
         if (k, got) != ("lib", "InvalidBankCode"):
             probs.append(("unlisted-pair-does-not-raise-InvalidBankCode", "InvalidBankCode", (k, got)))
@@ -156,6 +169,21 @@ def check_iban(index: dict, country: str, key: str):
             probs.append(("iban.bic-differs-from-lookup", chosen, None if got_bic is None else str(got_bic)))
     elif got_bic is not None:
         probs.append(("iban.bic-not-None-for-unlisted-bank", None, str(got_bic)))
+    if es:
+        # objects that skipped validation (too long, too short behind the bank fields, wrong check
+        # digits): the bank-identifying fields are all there, so the lookups answer as for the valid text
+        c = reg.countries()[country]
+        end_of_key = 4 + max(c.span(comp)[1] for comp in c.lookup_components)
+        for how, t in (("too long", text + "99"), ("too short", text[:max(end_of_key, len(text) - 2)]),
+                       ("wrong check digits", text[:2] + ("00" if text[2:4] != "00" else "01") + text[4:])):
+            kq, q = lib.outcome(lib.IBAN, t, allow_invalid=True)
+            if kq != "ok":
+                probs.append((f"unvalidated-object-cannot-be-built [{how}]", "object", (kq, q)))
+                continue
+            kq2, seen = lib.outcome(lambda: (q.bank, None if q.bic is None else str(q.bic), q.bank_name))
+            want = (got_bank, None if got_bic is None else str(got_bic), exp_names[0])
+            if (kq2, seen) != ("ok", want):
+                probs.append((f"lookups-of-an-unvalidated-object-differ [{how}]", want, (kq2, seen)))
     kx, both = lib.outcome(lambda: (o.bban.bank, str(o.bban.bic)))
     if kx != "ok":
         return probs + [("bban.bank/bic-raises", "values", (kx, both))]
@@ -244,6 +272,10 @@ def entry_alphabet():
             for b in BICS:
                 out.append({"country_code": "DE", "bank_code": code, "primary": prim, "bic": b,
                             "name": f"N{code[:1]}{int(prim)}{b[-3:]}", "short_name": f"S{code[:1]}{b[:1]}"})
+    # ... and a text that is no BIC at all (unknown country code), under the first key only
+    for prim in (True, False):
+        out.append({"country_code": "DE", "bank_code": K1, "primary": prim, "bic": "GENOXXM1",
+                    "name": f"M{int(prim)}", "short_name": "SM"})
     return out
 
 
